@@ -740,6 +740,10 @@ func (e *Env) monitorSettled(st *Step, f []string, kind string, ok bool) {
 		if !histEq(have, want) {
 			st.fail("C13", "not_settled", "position (%d,%d,%d) was not settled by %s: indices %v, validator has %v", k[0], k[1], k[2], kind, have, want)
 			if kind == "slash" {
+				// the same mechanism seen from C05: the position can claim the index difference again, the shared pool ends short by
+				// that amount and an unrelated delegator's claim (and with it his exit) fails. The liveness probes alone cannot tell
+				// this from the known shortfall after a value change (D6): a slash IS a value change
+				st.fail("C05", "pool_drained_by_unsettled_position", "position (%d,%d,%d) was cut by the slash callback after a claim but carries indices %v, validator has %v: it can claim the same rewards again from the shared pool", k[0], k[1], k[2], have, want)
 				st.fail("C12", "slash_cut_not_settled", "position (%d,%d,%d) was cut by the slash callback after a claim but carries indices %v, validator has %v: the same rewards are payable again", k[0], k[1], k[2], have, want)
 			}
 		}
